@@ -106,7 +106,10 @@ CHECKS = {
               "same order, each once), nothing before completion, buffered frames first. non-trivial = >= 2 data frames arrived at a side "
               "before it completed and it completed; distinct = hash of the script"),
         runs=[dict(engine="shipsim", test="TestC06", quick=dict(checks=30000, shards=4, timeout=600),
-                   thorough=dict(checks=1200000, shards=16, timeout=3000))],
+                   thorough=dict(checks=1200000, shards=12, timeout=3000)),
+              # full stack: SHIP over the real websocket layer over the in-memory pipe, slow receivers (back pressure)
+              dict(engine="wsfault", test="TestC06Stack", quick=dict(checks=1500, shards=4, timeout=600),
+                   thorough=dict(checks=60000, shards=4, timeout=3000))],
     ),
     "C09": dict(
         level="exploration",
